@@ -3,9 +3,9 @@
     Model: Convert.v (flavour conversions of t2data, generic in the tables and MOP programs of
     Gen/GenConvert.v, regenerated from t2data.py on every run), WaiweraJson.v (the pieces of json()
     the statement names).  All statements are over EVERY model object [d] (no size bound). *)
-From Coq Require Import Ascii String List Bool Arith ZArith Permutation.
+From Coq Require Import Ascii String List Bool Arith ZArith Permutation Sorted.
 From PTBase Require Import Exn PyStr.
-From P Require Import Lang Convert SectionLemmas SectionOrder MopLemmas ConvertLemmas ConvertLemmas2 WaiweraJson JsonLemmas JsonLemmas2 Examples.
+From P Require Import Lang Convert SectionLemmas SectionOrder MopLemmas ConvertLemmas ConvertLemmas2 WaiweraJson JsonLemmas JsonLemmas2 SourceJson Examples.
 From Gen Require Import GenConvert.
 Import ListNotations.
 Open Scope list_scope.
@@ -228,3 +228,40 @@ Theorem ex_orders_initial_boundary :
   on_ok (initial_cells ex_xin) (fun l => z_list_eqb l [7; 5; 5]%Z) = true.
 Proof. exact (conj (proj1 ex_block_orders) (proj1 ex_initial_boundary)). Qed.
 Print Assumptions ex_orders_initial_boundary.
+
+(** ** export, third part: the values of the sources, rock cell lists in geometry order *)
+(** one source per non-group generator, in list order, each made from its OWN generator (type, GX, EX, FG, HG, LTAB,
+    tables) and the name handed to it, by the table-driven generator_json of SourceJson.v *)
+Theorem source_per_generator_with_own_values : forall s l, sources_full s = Ok l ->
+  Forall2 (made_from s) (filter (nongroup (s_x s)) (genlist (x_d (s_x s)))) l /\
+  length l = length (filter (nongroup (s_x s)) (genlist (x_d (s_x s)))).
+Proof. exact sources_full_lemma. Qed.
+Print Assumptions source_per_generator_with_own_values.
+Theorem source_name_cell : forall s g v nm o, gen_source s g v nm = Ok o ->
+  jget "name" o = Some (JName nm) /\ jget "cell" o = Some (cell_jv (source_cell (s_x s) g)).
+Proof. exact source_name_cell_lemma. Qed.
+Print Assumptions source_name_cell.
+Theorem specified_rate_is_gx : forall s g v o, tracer_type s (g_type g) = false -> jget "rate" (specified_injection s g v o) = Some (JNum (v_gx v)).
+Proof. exact specified_rate_lemma. Qed.
+Print Assumptions specified_rate_is_gx.
+Theorem delv_direction : forall g v o o', delv g v o = Ok o' ->
+  jget "direction" o' = Some (JStr (if qneg (v_gx v) then "injection" else "production")) /\
+  (if qneg (v_gx v) then jget "enthalpy" o' = Some (JNum (v_fg v)) else jget "separator" o' = Some (separator (Some (v_fg v)))).
+Proof. exact delv_direction_lemma. Qed.
+Print Assumptions delv_direction.
+Theorem table_flags : forall s g v o, jget "interpolation" (table_part s g v o) = Some (JStr (fst (interp_names s))) /\
+                                      jget "averaging" (table_part s g v o) = Some (JStr (snd (interp_names s))).
+Proof. exact table_flags_lemma. Qed.
+Print Assumptions table_flags.
+(** what the code guarantees about a cell list: geometry order, i.e. strictly increasing cell indices (hence no repeats) *)
+Theorem rock_cells_sorted : forall x r, NoDup (x_geo x) -> StronglySorted Z.lt (cells_of_rock x r).
+Proof. exact rock_cells_sorted_lemma. Qed.
+Print Assumptions rock_cells_sorted.
+Theorem rock_cells_all_orders : forall g l x cl,
+  block_name_list g = Ok l -> x_geo x = l -> x_natm x = Z.of_nat (length (gm_atm g)) -> NoDup l -> rocks_cells x = Ok cl ->
+  exists u, l = gm_atm g ++ u /\ Permutation u (map fst (gm_under g)) /\
+    forall j n, nth_error u j = Some n -> exists b, grid_lookup x n = Some b /\
+      (nonbdy x b = true -> exists r, r < length cl /\ In (Z.of_nat j) (nth r cl []) /\ forall r', In (Z.of_nat j) (nth r' cl []) -> r' = r) /\
+      (nonbdy x b = false -> forall r', ~ In (Z.of_nat j) (nth r' cl [])).
+Proof. exact rock_cells_all_orders_lemma. Qed.
+Print Assumptions rock_cells_all_orders.
